@@ -21,6 +21,9 @@ def main(argv=None):
     try:
         mod = importlib.import_module('harness.checks.' + pid.lower())
         if args.replay:
+            if not hasattr(mod, 'replay'):
+                from harness import replay_generic
+                return replay_generic.replay(args.replay)
             return mod.replay(args.replay)
         return mod.run(args.tier, seed)
     except MachineryFailure as exc:
